@@ -1371,6 +1371,9 @@ func (ls *LState) Insert(value LValue, index int) {
 	reg := ls.indexToReg(index)
 	top := ls.reg.Top()
 	if reg >= top {
+		// beyond top+1 the gap becomes nil: registers above top may hold anything
+		// (SetTop fills the new slots with LNil)
+		ls.reg.SetTop(reg)
 		ls.reg.Set(reg, value)
 		return
 	}
@@ -1786,6 +1789,11 @@ func (ls *LState) ObjLen(v1 LValue) int {
 /* binary operations {{{ */
 
 func (ls *LState) Concat(values ...LValue) string {
+	if len(values) == 0 {
+		// like lua_concat with n = 0: the empty string (stringConcat would start
+		// from the register below the operands, i.e. the caller's top-most value)
+		return ""
+	}
 	top := ls.reg.Top()
 	for _, value := range values {
 		ls.reg.Push(value)
